@@ -626,31 +626,65 @@ Qed.
 (* ------------------------------------------------------------------ *)
 (* try_as_usize *)
 
+Lemma rpos_none_val : forall v, rpos_nonzero v = None -> val_limbs v = 0.
+Proof.
+  induction v as [|x r IH]; intro H; [reflexivity|].
+  cbn [rpos_nonzero] in H. destruct (rpos_nonzero r); [discriminate|].
+  destruct (N.eqb_spec x 0) as [->|]; [|discriminate].
+  cbn [val_limbs]. rewrite IH by reflexivity. lia.
+Qed.
+
+Lemma rpos_some_val : forall v i, rpos_nonzero v = Some i -> val_limbs v <> 0.
+Proof.
+  induction v as [|x r IH]; intros i H; [discriminate|].
+  cbn [rpos_nonzero] in H. cbn [val_limbs].
+  destruct (rpos_nonzero r) as [j|].
+  - specialize (IH j eq_refl). assert (0 < W) by reflexivity. nia.
+  - destruct (N.eqb_spec x 0); [discriminate|]. lia.
+Qed.
+
 Lemma try_as_usize_ok_val : forall b n, try_as_usize b = Ok n -> val b = n.
 Proof.
   intros [m|v] n H; cbn [try_as_usize val] in *.
   - congruence.
-  - destruct v as [|x [|y r]]; try discriminate. injection H as <-. cbn [val_limbs]. lia.
+  - destruct v as [|x r]; cbn [significant_len rpos_nonzero get0 hd0] in H.
+    + cbn [Nat.eqb] in H. injection H as <-. reflexivity.
+    + destruct (rpos_nonzero r) as [j|] eqn:Er.
+      * cbn [Nat.eqb] in H. discriminate.
+      * cbn [val_limbs]. rewrite (rpos_none_val r Er).
+        destruct (x =? 0); cbn [Nat.eqb] in H; injection H as <-; lia.
 Qed.
 
-Lemma try_as_usize_except_known_lemma : forall b, wf b = true -> known_C10_noncanonical b = false ->
+(* full strength: exactly the values below 2^64 are accepted, in whatever
+   limb representation *)
+Lemma try_as_usize_spec_lemma : forall b, wf b = true ->
   (val b < W -> try_as_usize b = Ok (val b)) /\
   (W <= val b -> try_as_usize b = Err EOutOfRange).
 Proof.
-  intros [n|v] Hwf Hk.
+  intros [n|v] Hwf.
   - apply wf_Small in Hwf. cbn [val try_as_usize]. split; [reflexivity|lia].
   - apply wf_Large in Hwf. destruct Hwf as [Hne Hok].
-    destruct v as [|x [|y r]]; [congruence| |].
-    + apply limbs_ok_cons in Hok. destruct Hok as [Hx _].
-      cbn [val val_limbs try_as_usize]. split; [intros _; f_equal; lia|lia].
-    + cbn [known_C10_noncanonical length Nat.ltb Nat.leb andb] in Hk.
-      cbn [val try_as_usize]. split; [lia|reflexivity].
+    destruct v as [|x r]; [congruence|].
+    apply limbs_ok_cons in Hok. destruct Hok as [Hx Hok].
+    cbn [val val_limbs try_as_usize significant_len rpos_nonzero get0 hd0].
+    destruct (rpos_nonzero r) as [j|] eqn:Er.
+    + pose proof (rpos_some_val r j Er) as Hnz. cbn [Nat.eqb].
+      assert (0 < W) by reflexivity. split; [nia|reflexivity].
+    + rewrite (rpos_none_val r Er).
+      destruct (x =? 0); cbn [Nat.eqb]; (split; [intros _; f_equal; lia|lia]).
 Qed.
 
-Lemma try_as_usize_refuted_lemma :
-  exists b, wf b = true /\ val b < W /\ try_as_usize b <> Ok (val b).
-Proof. exists (Large [5; 0]). repeat split; discriminate. Qed.
+(* hence shifts accept every count below 2^64 *)
+Lemma shl_total_lemma : forall a b, wf a = true -> wf b = true -> val b < W ->
+  exists r, lshift_n a b = Ok r /\ wf r = true /\ val r = N.shiftl (val a) (val b).
+Proof.
+  intros a b Wa Wb Hb. apply shl_spec_lemma; [assumption|].
+  apply try_as_usize_spec_lemma; assumption.
+Qed.
 
-Lemma shl_total_refuted_lemma :
-  exists a b, wf a = true /\ wf b = true /\ val b < W /\ lshift_n a b = Err EOutOfRange.
-Proof. exists (Small 3), (Large [5; 0]). repeat split. Qed.
+Lemma shr_total_lemma : forall a b, wf a = true -> wf b = true -> val b < W ->
+  exists r, rshift_n a b = Ok r /\ wf r = true /\ val r = N.shiftr (val a) (val b).
+Proof.
+  intros a b Wa Wb Hb. apply shr_spec_lemma; [assumption|].
+  apply try_as_usize_spec_lemma; assumption.
+Qed.
